@@ -153,6 +153,22 @@ func (e *Engine) ghostDeclType(env *Env, name string) types.Type {
 // callee as writing everything, unless the argument is the address of a local, which it accounts for itself.)
 func (e *Engine) pointeeAssign(s *State, env *Env, item string, w *WriteSet) bool {
 	item = strings.TrimSpace(item)
+	if strings.HasPrefix(item, "MapOf(") && strings.HasSuffix(item, ")") {
+		// MapOf(p): the call may write maps of the type of parameter p (e.g. the receiver of http.Header.Set)
+		name := strings.TrimSpace(item[len("MapOf(") : len(item)-1])
+		if env != nil {
+			if ty, ok := env.vtypes[name]; ok && ty != nil {
+				if mt, ok := ty.Underlying().(*types.Map); ok {
+					for _, k := range e.mapKeys(mt) {
+						w.Heap[k] = true
+					}
+					return true
+				}
+			}
+		}
+		w.setAll("MapOf(" + name + "): not a map-typed parameter at this call")
+		return true
+	}
 	if !strings.HasPrefix(item, "Pointee(") || !strings.HasSuffix(item, ")") {
 		return false
 	}
@@ -168,7 +184,17 @@ func (e *Engine) pointeeAssign(s *State, env *Env, item string, w *WriteSet) boo
 	switch x := v.(type) {
 	case *Ptr:
 		if x.Elem != nil {
-			e.addPtrTargetKeys(types.NewPointer(x.Elem), w)
+			_, isStruct := x.Elem.Underlying().(*types.Struct)
+			_, isArray := x.Elem.Underlying().(*types.Array)
+			if x.Kind == pkObj && (isStruct || isArray) {
+				// every object of the pointee's type (type-based, covers what the callee reaches through it one level deep)
+				e.addPtrTargetKeys(types.NewPointer(x.Elem), w)
+				return true
+			}
+			// a variable, field or element: exactly that location receives an arbitrary value
+			if err := s.store(x, s.fresh("pointee."+name, x.Elem)); err != nil {
+				w.setAll("Pointee(" + name + "): " + err.Error())
+			}
 			return true
 		}
 	case Term:
@@ -189,14 +215,14 @@ func (e *Engine) pointeeAssign(s *State, env *Env, item string, w *WriteSet) boo
 // only of Mem(..) / Ghost(..) / Pointee(p) items. Pointee(p) is resolved from the static type of the argument
 // (address of a local: already accounted for by the caller of this function; pointer-typed value: the heap arrays
 // of its element type). Returns false when the contract has another shape (the general rule applies).
-func (e *Engine) contractCallWrites(f *ssa.Function, cc *ssa.CallCommon, w *WriteSet) bool {
+func (e *Engine) contractCallWrites(f *ssa.Function, cc *ssa.CallCommon, w *WriteSet, fn *ssa.Function) bool {
 	c := e.contractFor(f)
 	if c == nil || c.Flags["assigns"] == "" {
 		return false
 	}
 	hasPointee := false
 	for _, a := range c.Assigns {
-		if strings.HasPrefix(strings.TrimSpace(a), "Pointee(") {
+		if strings.HasPrefix(strings.TrimSpace(a), "Pointee(") || strings.HasPrefix(strings.TrimSpace(a), "MapOf(") {
 			hasPointee = true
 		}
 	}
@@ -214,10 +240,11 @@ func (e *Engine) contractCallWrites(f *ssa.Function, cc *ssa.CallCommon, w *Writ
 			}
 			continue
 		}
-		if !strings.HasPrefix(a, "Pointee(") {
+		isMap := strings.HasPrefix(a, "MapOf(")
+		if !strings.HasPrefix(a, "Pointee(") && !isMap {
 			return false
 		}
-		name := strings.TrimSpace(a[len("Pointee(") : len(a)-1])
+		name := strings.TrimSpace(a[strings.Index(a, "(")+1 : len(a)-1])
 		idx := -1
 		for i, p := range c.Params {
 			if p.Name == name {
@@ -226,6 +253,21 @@ func (e *Engine) contractCallWrites(f *ssa.Function, cc *ssa.CallCommon, w *Writ
 		}
 		if idx >= 0 && f.Signature.Recv() != nil {
 			idx++
+		}
+		if name == "recv" && f.Signature.Recv() != nil {
+			idx = 0
+		}
+		if isMap {
+			if idx >= 0 && idx < len(cc.Args) {
+				if mt, ok := cc.Args[idx].Type().Underlying().(*types.Map); ok {
+					for _, k := range e.mapKeys(mt) {
+						w.Heap[k] = true
+					}
+					continue
+				}
+			}
+			w.setAll("assigns " + a + ": argument is not a map")
+			return true
 		}
 		if idx < 0 || idx >= len(cc.Args) {
 			w.setAll("assigns " + a + ": parameter not found")
@@ -236,11 +278,8 @@ func (e *Engine) contractCallWrites(f *ssa.Function, cc *ssa.CallCommon, w *Writ
 			arg = mi.X
 		}
 		if _, ok := arg.Type().Underlying().(*types.Pointer); ok {
-			if al, isAlloc := arg.(*ssa.Alloc); isAlloc && !al.Heap {
-				w.Cells[al] = true
-			} else {
-				e.addPtrTargetKeys(arg.Type(), w)
-			}
+			// the same classification as for a store through this address
+			e.classifyAddr(arg, w, fn)
 			continue
 		}
 		w.setAll("assigns " + a + ": argument is not a pointer")
